@@ -38,7 +38,7 @@ func init() {
 			`R19.3 every worker sends exactly one result on every path and the parent collects them; R19.4 the set of finished entries behind the marker is keyed by the entry index itself, not by a reduction of it; R19.5 no function of package archiver that changes the tree (removes, creates, renames) examines a path with os.Stat, which follows links - entries are examined with Lstat, so that re-extraction over an existing tree stays idempotent for links. ` +
 			`R19.6 functions of package archiver that walk a tree to archive it never refer to filepath.SkipDir / SkipAll; R16.8 (shared) workers are waited for only after they were released. ` +
 			`R19.7 no strings.HasPrefix/HasSuffix/Contains(x, "..") in package archiver (a test of characters where path elements are meant; legal names such as ..data would be refused). ` +
-			`NOT decided: tree equality, tar, symlink/dir recreation, and whether the marker value is a contiguous high-water mark (value-level; a lock is necessary, not sufficient).`,
+			`R19.8 a removal in archiver.Mkdir is reached only through the nil outcome of an Lstat and the outcome !IsDir() (workers make directories concurrently). NOT decided: tree equality, tar, symlink/dir recreation, and whether the marker value is a contiguous high-water mark (value-level; a lock is necessary, not sufficient).`,
 		Assumptions: []string{
 			"state.Consumer and the OnEntryDone / OnUncompressedSizeKnown callbacks are assumed internally synchronised",
 			"slice element accesses are not tracked",
@@ -108,24 +108,7 @@ func runC15(c *core.Ctx) {
 	c.Rule("R15.3", "ordered fan-in")
 	c.Rule("R15.4", "no ambient nondeterminism on the data path")
 	ruleRefillTakesExactlyOneBlock(c, "R15.5")
-	c.Rule("R15.6", "no package-level buffer, table or object is written on the working paths")
-	{
-		nFn := 0
-		for _, fn := range c.P.SrcFuncs() {
-			if fn.Parent() != nil || !strings.HasPrefix(core.PkgPathOf(fn), core.Mod) || strings.HasSuffix(core.PkgPathOf(fn), "/wtest") {
-				continue
-			}
-			if strings.Contains(c.P.Pos(fn.Pos()), ".pb.go:") {
-				continue // generated descriptor tables, initialised once under sync.Once
-			}
-			nFn++
-			for _, w := range sharedGlobalWrites(fn) {
-				c.Bad("R15.6", core.FnName(fn), "package-level "+w.what, core.InstrPos(w.in),
-					"the package-level variable "+w.name+" is "+w.what+": every diff, signature or application running in the process shares it. Two of them in flight overwrite each other's data (a copy buffer handed from the reader goroutine to the differ and the signer carries the other build's bytes) and the result depends on the schedule")
-			}
-		}
-		c.Floor("R15.6", "top-level functions of the module", nFn, 100)
-	}
+	ruleNoSharedPackageState(c)
 	sites := []struct {
 		pkg, fn string
 		min     int
@@ -656,6 +639,40 @@ func runC19(c *core.Ctx) {
 	c.Rule("R19.5", "entries are examined without following links")
 	ruleNoFollow(c, "R19.5", "/archiver")
 	ruleNoJoinBeforeRelease(c, "R16.8", 1, 1, "/archiver")
+	c.Rule("R19.8", "the directory helper removes only what it has seen to be in the way")
+	if mk := c.P.Fn("archiver", "Mkdir"); mk == nil {
+		c.Missing("R19.8", "archiver.Mkdir", "not found")
+	} else {
+		// extraction workers make directories concurrently - a worker makes the parents of its own entry. A
+		// removal in Mkdir is safe only for something a successful Lstat has shown not to be a directory;
+		// removing "whatever may be there" after a failed look deletes what another worker has just made
+		nRm := 0
+		core.Instrs(mk, func(in ssa.Instruction) {
+			cl, ok := in.(*ssa.Call)
+			if !ok {
+				return
+			}
+			nm := core.CalleeName(cl)
+			if nm != "os.Remove" && nm != "os.RemoveAll" {
+				return
+			}
+			nRm++
+			var lstat *ssa.Call
+			core.Instrs(mk, func(x ssa.Instruction) {
+				if lc, ok := x.(*ssa.Call); ok && core.CalleeName(lc) == "os.Lstat" && core.InstrDominates(x, in) {
+					lstat = lc
+				}
+			})
+			seen := lstat != nil && core.FindPathSkipping(mk, lstat, isInstr(in), nil, func(b, s2 *ssa.BasicBlock) bool { return nilOutcomeEdge(lstat, b, s2) }) == nil
+			notDir := hasGuard(in, func(g core.Guard) bool {
+				c2, ok := g.Cond.(*ssa.Call)
+				return ok && c2.Call.IsInvoke() && c2.Call.Method.Name() == "IsDir" && !g.Val
+			})
+			c.Check(seen && notDir, "R19.8", core.FnName(mk), nm+" only of something seen not to be a directory", core.InstrPos(in),
+				"reached only through the nil outcome of an Lstat and the outcome !IsDir()", "Mkdir removes the path without having seen something other than a directory there (after a failed Mkdir or Lstat, say): with several extraction workers, one of them deletes the directory - and what is in it - that another has just made for its own entry")
+		})
+		c.Stats["R19.8.removals_in_Mkdir"] = nRm
+	}
 	c.Rule("R19.7", "entry names are not refused by a textual test for '..'")
 	{
 		nFn := 0
@@ -1047,7 +1064,36 @@ func sharedGlobalWrites(top *ssa.Function) []globalWrite {
 				if g := fromGlobal(x.Map); g != nil {
 					out = append(out, globalWrite{in, g.Name(), "updated"})
 				}
+			}
+			// a package-level pointer to a struct handed out: stored into an object, or used as receiver or
+			// argument - whoever gets it shares its fields with every other holder
+			handOut := func(v ssa.Value, what string) {
+				ld, ok := v.(*ssa.UnOp)
+				if !ok || ld.Op != token.MUL {
+					return
+				}
+				g := ownGlobal(ld)
+				if g == nil {
+					return
+				}
+				pt, ok := ld.Type().Underlying().(*types.Pointer)
+				if !ok {
+					return
+				}
+				if _, isStruct := pt.Elem().Underlying().(*types.Struct); !isStruct {
+					return
+				}
+				out = append(out, globalWrite{in, g.Name(), what})
+			}
+			switch x := in.(type) {
+			case *ssa.Store:
+				if _, isG := x.Addr.(*ssa.Global); !isG {
+					handOut(x.Val, "a shared object stored into another object")
+				}
 			case ssa.CallInstruction:
+				for _, a := range x.Common().Args {
+					handOut(a, "a shared object handed to "+core.CalleeName(x))
+				}
 				for _, a := range x.Common().Args {
 					if _, isSlice := a.Type().Underlying().(*types.Slice); !isSlice {
 						continue
@@ -1063,4 +1109,27 @@ func sharedGlobalWrites(top *ssa.Function) []globalWrite {
 		})
 	}
 	return out
+}
+
+// ruleNoSharedPackageState is R15.6 (shared with C09: two applications in one process each have their own
+// safekeeper, and must not meet in a package-level hashing context).
+func ruleNoSharedPackageState(c *core.Ctx) {
+	c.Rule("R15.6", "no package-level buffer, table or object is written on the working paths")
+	{
+		nFn := 0
+		for _, fn := range c.P.SrcFuncs() {
+			if fn.Parent() != nil || !strings.HasPrefix(core.PkgPathOf(fn), core.Mod) || strings.HasSuffix(core.PkgPathOf(fn), "/wtest") {
+				continue
+			}
+			if strings.Contains(c.P.Pos(fn.Pos()), ".pb.go:") {
+				continue // generated descriptor tables, initialised once under sync.Once
+			}
+			nFn++
+			for _, w := range sharedGlobalWrites(fn) {
+				c.Bad("R15.6", core.FnName(fn), "package-level "+w.what, core.InstrPos(w.in),
+					"the package-level variable "+w.name+" is "+w.what+": every diff, signature or application running in the process shares it. Two of them in flight overwrite each other's data (a copy buffer handed from the reader goroutine to the differ and the signer carries the other build's bytes) and the result depends on the schedule")
+			}
+		}
+		c.Floor("R15.6", "top-level functions of the module", nFn, 100)
+	}
 }
